@@ -46,11 +46,14 @@ ObjK == [cls |-> "Comp", g |-> GNon, apb |-> 1, tpb |-> 2, hasEff |-> TRUE, hasG
          blk |-> [a \in 1..2 |-> [t \in 1..2 |-> [c \in 1..2 |-> [u \in 1..2 |-> IF a = c THEN 0 ELSE 1]]]]]
 ObjK1 == [ObjK EXCEPT !.eff = << <<0, 0, 0, 0>>, <<0, 0, 0, 0>> >>, !.geo = 0, !.hasBlk = FALSE]                       \* all factors 1
 
+ObjP00 == LET f(b) == 0 IN [cls |-> "PD", g |-> GNon, tab |-> Table(GNon, f)]                                         \* factor data all 1
+ObjC1(g) == LET f(b) == 0 IN [cls |-> "Cal", g |-> g, tab |-> Table(g, f), calib |-> 1, br |-> -1]                         \* efficiencies all 1
+Singles(g) == {ObjT, ObjP0, ObjC(g), ObjP00, ObjC1(g)} \cup (IF IsTof(g) THEN {ObjP1} ELSE {ObjK, ObjK1})
 Leaves(g) == {ObjT, ObjP0, ObjC(g)} \cup (IF IsTof(g) THEN {ObjP1} ELSE {ObjK, ObjK1})
 Chain2(g) == { [cls |-> "Chain", first |-> x, second |-> y] : x \in Leaves(g), y \in Leaves(g) }
 Chain3(g) == { [cls |-> "Chain", first |-> x, second |-> y] : x \in {ObjT, ObjP0, ObjC(g)}, y \in Chain2(g) }
                \cup { [cls |-> "Chain", first |-> y, second |-> x] : x \in {ObjP0, ObjC(g)}, y \in { c \in Chain2(g) : c.first.cls # "Trivial" } }
-Objects(g) == Leaves(g) \cup (IF Depth >= 2 THEN Chain2(g) ELSE {}) \cup (IF Depth >= 3 THEN Chain3(g) ELSE {})
+Objects(g) == Singles(g) \cup (IF Depth >= 2 THEN Chain2(g) ELSE {}) \cup (IF Depth >= 3 THEN Chain3(g) ELSE {})
 
 \* original data: distinct exponents, one zero datum
 D0(g, b) == IF b.seg = -1 /\ b.view = 0 /\ b.tang = 0 /\ b.tof = g.minTof THEN ZERO ELSE 3 * b.seg + b.view - 2 * b.tang + b.tof + b.ax
@@ -169,7 +172,9 @@ InvFactor == \A b \in BinsOf(G) :
 InvTrivialMC == (AllOne(obj) \/ \A b \in BinsOf(G) : effT[b] = 0) => \A b \in BinsOf(G) : data[b] = D0(G, b)
 \* theorems about the efficiency of the state's object (evaluated when the object or its calibration is new)
 Fresh == nops = 0 /\ su.st = "none"
-InvReportsTrivial == (Fresh /\ obj.cls \in {"Trivial", "Comp"} /\ TrivialAnswerOk(obj, TRUE)) => \A b \in BinsOf(G) : effT[b] = 0
+\* "a normalisation that reports itself trivial changes nothing": whenever the specification accepts the answer
+\* `true' from is_trivial(), the abstract efficiency is 1 everywhere
+InvReportsTrivial == (Fresh /\ TrivialAnswerOk(obj, TRUE)) => \A b \in BinsOf(G) : effT[b] = 0
 InvTof == (Fresh /\ obj.cls = "PD" /\ ~IsTof(obj.g)) => \A b \in BinsOf(G) : effT[b] = Eff(obj, [b EXCEPT !.tof = 0])
 InvSetUp == /\ (lastErr = "ok" /\ ChecksOnViewgrams(obj)) => (su.st = "ok" /\ Geq(su.g, G))
             /\ (lastErr = "oksmall" /\ ChecksOnViewgrams(obj)) => (su.st = "ok" /\ Geq(su.g, Small(G)))
